@@ -13,17 +13,23 @@ import vlib
 LEVEL = "exploration"
 HERE = os.path.dirname(os.path.abspath(__file__))
 SRC = os.path.join(HERE, "harness.cpp")
-PARTS = list(range(1, 11))
+PARTS = list(range(1, 21))
 PART_DOC = {
-    1: "xoptional operators on int,double", 2: "xoptional operators on Traced<int>; value_or", 3: "xoptional lifted unary/binary functions on double; abs(int); select<int>",
-    4: "xoptional lifted functions on Traced<double>; select<double>", 5: "xoptional fma (all 7 position patterns x closures) on double, Traced<double>",
-    6: "xmasked_value operators on int,double", 7: "xmasked_value operators on Traced<int>", 8: "xmasked_value lifted unary/binary functions on double; abs(int)",
+    1: "xoptional operators on int", 19: "xoptional operators on double", 2: "xoptional binary operators on Traced<int>",
+    17: "xoptional ==,!=,unary,compound on Traced<int>; value_or", 3: "xoptional lifted unary/binary functions on double; abs(int); select<int>",
+    4: "xoptional lifted functions on Traced<double>; select<double>", 5: "xoptional fma on double, Traced<double>",
+    6: "xmasked_value operators on int", 20: "xmasked_value operators on double", 7: "xmasked_value binary operators on Traced<int>",
+    18: "xmasked_value ==,!=,unary,compound on Traced<int>", 8: "xmasked_value lifted unary/binary functions on double; abs(int)",
     9: "xmasked_value lifted functions on Traced<double>", 10: "xmasked_value fma on double, Traced<double>",
+    11: "xoptional mixed element types: operators/compound int<->double, % & | ^ int<->long long", 12: "xoptional mixed: binary functions int<->double; select int<->double",
+    13: "xoptional mixed: fma over all 6 non-uniform {int,double}^3", 14: "xmasked_value mixed operators", 15: "xmasked_value mixed binary functions", 16: "xmasked_value mixed fma",
 }
 
 
 def configs(tier):
-    """(std, compiler, cref, primary?) -- the primary configuration is the one whose cases are counted as distinct."""
+    """(std, compiler, cref, primary?) -- the primary configuration is the one whose cases are counted as distinct.
+    cref = 0: kinds P V R (+ int-flag kinds I J on the counting element types, select and value_or; C04_FLAGS=1);
+    cref = 1: + const-reference kind C and I J on every element type and in the full ternary product (C04_FLAGS=2)."""
     if tier == "quick":
         return [("c++14", "g++", 0, True)]
     return [("c++14", "g++", 1, True), ("c++17", "g++", 1, False), ("c++20", "g++", 1, False), ("c++14", "clang++", 1, False)]
@@ -40,7 +46,7 @@ def parse_tag(tag):
 
 def build(part, std, cxx, cref):
     return vlib.compile_cxx(SRC, "c04-p%d-%s-%s-cref%d" % (part, std, cxx.replace("+", "x"), cref), std=std, opt="-O1", san="asan", compiler=cxx,
-                            defines=["C04_PART=%d" % part, "C04_CREF=%d" % cref])
+                            defines=["C04_PART=%d" % part, "C04_CREF=%d" % cref, "C04_FLAGS=%d" % (2 if cref else 1)])
 
 
 def merge(ctx, sub, primary):
